@@ -74,7 +74,7 @@ let parse_out (outs : string list) : rstep list =
     if t = "|" then begin flush (); cur := Some { evs = []; chunks = []; wins = []; err = None; odd = [] } end
     else if t = ">c" then dest := Cl
     else if t = ">s" then dest := Sv
-    else if t = "ERR" || t = "PANIC" || t = "PREFACE" || t = "SETUPFAIL" || t = "BADTOKEN" then
+    else if t = "ERR" || t = "ERR2U" || t = "PANIC" || t = "PREFACE" || t = "SETUPFAIL" || t = "BADTOKEN" then
       add (fun s -> { s with err = Some t })
     else if t.[0] = '=' then
       add (fun s -> { s with wins = (sd (String.sub t 1 1), String.sub t 3 (String.length t - 3)) :: s.wins })
